@@ -1,20 +1,22 @@
-SPECIFICATION TraceSpec
+SPECIFICATION Spec
 CONSTANTS
-  Seeds <- MCSeeds12
+  Seeds <- MCSeeds
   Gens <- MCGens
   GenSeed <- MCTwins
   Entries <- MCEntries3
   Random <- MCRandom3
   Seedable <- MCSeed3
-  Objs <- MCObjs
+  Objs <- MCNoObjs
   ObjSeed <- MCObjSeed
   ObjEntries <- MCSeedRand
-  MaxOps = 1000000
+  MaxOps = 4
   Variant = "spec"
-INVARIANT BindFunctional
-INVARIANT MemoFunctional
+INVARIANT TypeOK
 INVARIANT SameSeedSameResult
 INVARIANT TwinGeneratorsAgree
 INVARIANT DeterministicNoSeed
-POSTCONDITION TraceAccepted
-CHECK_DEADLOCK FALSE
+INVARIANT ReseedReproducible
+PROPERTY IntSeedLeavesGlobal
+PROPERTY ObjSeedLeavesGlobal
+PROPERTY IntSeedLeavesGenerators
+PROPERTY GenCallOwnStreamOnly
